@@ -222,3 +222,32 @@ def witness_F33():
                     constraint_expressions={"R_1": "R_0 * ratio"}, constraint_variables={"ratio": dict(value=4.0, min=1e-6, max=1e6)})
     p = r.minimizer_result.params
     return bool(abs(p["R_1"].value - p["R_0"].value * p["ratio"].value) > 1e-6 * p["R_1"].value)
+
+
+# ---- F34 (C09): real-inv with a capacitance nullifies it with the dimensional constant 1e-18 before its second stage
+def real_inv_guard_constant(entry):
+    i = entry.get("input")
+    if not (isinstance(i, dict) and i.get("test") == "real-inv" and i.get("add_capacitance") is True and i.get("transformation") == "Zscale"):
+        return False
+    what = entry.get("what")
+    try:
+        if what == "residuals-not-invariant":
+            return float(str(entry.get("observed")).split()[-1]) <= 1e-3
+        if what == "chisqr-not-invariant":
+            a, b = float(entry.get("observed")), float(entry.get("expected"))
+            return abs(a - b) <= 1e-3 * max(abs(a), abs(b))
+    except (TypeError, ValueError):
+        return False
+    return False
+
+
+def witness_F34():
+    import numpy as np
+    from pyimpspec import DataSet, generate_mock_data, perform_kramers_kronig_test
+    d = generate_mock_data("CIRCUIT_5", noise=1e-2, seed=1)[0]
+    f, Z = d.get_frequencies(), d.get_impedances()
+    kw = dict(test="real-inv", num_RC=4, add_capacitance=True, add_inductance=True, admittance=True, log_F_ext=0.0, num_F_ext_evaluations=0, num_procs=1)
+    a = perform_kramers_kronig_test(DataSet(f, Z), **kw)
+    b = perform_kramers_kronig_test(DataSet(f, 1e6 * Z), **kw)
+    dev = float(np.max(np.abs(np.asarray(a.residuals) - np.asarray(b.residuals))))
+    return bool(1e-9 < dev < 1e-2)
